@@ -249,11 +249,25 @@ def fill_python_placeholders(text, in_string='x', in_code='X'):
     """replace every marker by an atom that fits its lexical position in Python source: inside a string literal a
     letter, in code an identifier"""
     out = []
+    glued = fill_python_placeholders.glued = []
     i, n = 0, len(text)
     state = None    # None | "'" | '"' | "'''" | '\"\"\"'
     while i < n:
         ch = text[i]
         if ch == MARK:
+            if state is None:
+                # pasted directly behind a number prefix or digit (`0x{{ v }}`, `1{{ v }}`): the expression's text
+                # becomes part of a numeric literal, read in whatever base the prefix says
+                j = len(out) - 1
+                tail = ''
+                while j >= 0 and len(tail) < 3 and out[j] and (out[j][-1].isalnum()):
+                    tail = out[j][-1] + tail
+                    j -= 1
+                if tail and tail[0].isdigit():
+                    glued.append(''.join(out)[-20:])
+                    out.append('0')
+                    i += 1
+                    continue
             out.append(in_string if state else in_code)
             i += 1
             continue
